@@ -202,4 +202,40 @@ def runBatches (kgc : Nat) : KV → List Batch → List (List (Bytes × List NsS
   | _, [] => []
   | kv, b :: bs => (processBatch kgc kv b).2 :: runBatches kgc (processBatch kgc kv b).1 bs
 
+/-! ## checkpoint and restore of the operator -/
+
+/-- what happens to an operator between deployments: handler invocations, checkpoints (`db.Checkpoint` at a barrier,
+after the pending batch was flushed) and a redeploy from the latest checkpoint (`HandleDeploy` with the checkpoint
+handle: the DKV is reopened from it; that the reopened database holds exactly the map at the `Checkpoint` call is
+C08's subject). A redeploy without a checkpoint starts from an empty database. -/
+inductive OpStep where
+  | batch (b : Batch)
+  | ckpt
+  | restore
+deriving Repr, Inhabited
+
+structure OpState where
+  kv : KV := []
+  saved : Option KV := none
+deriving Repr, Inhabited
+
+def opStep (kgc : Nat) (s : OpState) : OpStep → OpState × Option (List (Bytes × List NsState))
+  | .batch b => ({ s with kv := (processBatch kgc s.kv b).1 }, some (processBatch kgc s.kv b).2)
+  | .ckpt => ({ s with saved := some s.kv }, none)
+  | .restore => ({ s with kv := s.saved.getD [] }, none)
+
+/-- observations of a whole operator history: the `KeyStates` of every invocation (`none` for the other steps) -/
+def runOps (kgc : Nat) : OpState → List OpStep → List (Option (List (Bytes × List NsState)))
+  | _, [] => []
+  | s, x :: xs => (opStep kgc s x).2 :: runOps kgc (opStep kgc s x).1 xs
+
+/-- specification side: the invocations whose results are part of the current state (`.1`) and of the latest
+checkpoint (`.2`). A restore forgets the invocations after the checkpoint; the ones before it stay. -/
+def effStep (e : List Batch × Option (List Batch)) : OpStep → List Batch × Option (List Batch)
+  | .batch b => (e.1 ++ [b], e.2)
+  | .ckpt => (e.1, some e.1)
+  | .restore => (e.2.getD [], e.2)
+
+def effective (steps : List OpStep) : List Batch × Option (List Batch) := steps.foldl effStep ([], none)
+
 end Rxn.KeyedState
